@@ -11,43 +11,7 @@ import (
 // operation histories of any length. Content is checked pointwise at a free index k.
 // ---------------------------------------------------------------------------------------
 
-func vRingInv(rb *Buffer) bool {
-	if rb.size == 0 {
-		return len(rb.buf) == 0 && rb.r == 0 && rb.w == 0 && rb.isEmpty
-	}
-	return len(rb.buf) == rb.size && 0 <= rb.r && rb.r < rb.size && 0 <= rb.w && rb.w < rb.size &&
-		(!rb.isEmpty || (rb.r == 0 && rb.w == 0))
-}
-
-func vAnyRing(tag string) *Buffer {
-	size := vNondetInt(tag + ".size")
-	r := vNondetInt(tag + ".r")
-	w := vNondetInt(tag + ".w")
-	e := vNondetBool(tag + ".isEmpty")
-	vAssume(size >= 0 && size <= vMaxLen())
-	rb := &Buffer{size: size, r: r, w: w, isEmpty: e}
-	if size > 0 {
-		rb.buf = vNondetBytes(tag+".buf", size)
-	}
-	vAssume(vRingInv(rb))
-	return rb
-}
-
-// vAt: k-th buffered byte (0 <= k < Buffered()) straight from the representation
-func vAt(rb *Buffer, k int) byte {
-	i := rb.r + k
-	if i >= rb.size {
-		i -= rb.size
-	}
-	return rb.buf[i]
-}
-
-func vAcct(rb *Buffer) bool {
-	return rb.Buffered()+rb.Available() == rb.Cap() && rb.IsEmpty() == (rb.Buffered() == 0) &&
-		rb.IsFull() == (rb.Available() == 0 && rb.Cap() > 0) && rb.Buffered() >= 0 && rb.Available() >= 0
-}
-
-//verif: mode=int unwind=6
+// verif: mode=int unwind=6
 func VH_C09_Write() {
 	rb := vAnyRing("rb")
 	n := vNondetInt("n")
@@ -71,7 +35,7 @@ func VH_C09_Write() {
 	vReach("C09.write.end")
 }
 
-//verif: mode=int unwind=6
+// verif: mode=int unwind=6
 func VH_C09_WriteString() {
 	rb := vAnyRing("rb")
 	n := vNondetInt("n")
@@ -94,7 +58,7 @@ func VH_C09_WriteString() {
 	vReach("C09.writestring.end")
 }
 
-//verif: mode=int unwind=6
+// verif: mode=int unwind=6
 func VH_C09_WriteByte() {
 	rb := vAnyRing("rb")
 	c := vNondetByte("c")
@@ -113,7 +77,7 @@ func VH_C09_WriteByte() {
 	vReach("C09.writebyte.end")
 }
 
-//verif: mode=int
+// verif: mode=int
 func VH_C09_Read() {
 	rb := vAnyRing("rb")
 	n := vNondetInt("n")
@@ -148,7 +112,7 @@ func VH_C09_Read() {
 	vReach("C09.read.end")
 }
 
-//verif: mode=int
+// verif: mode=int
 func VH_C09_ReadByte() {
 	rb := vAnyRing("rb")
 	L0 := rb.Buffered()
@@ -183,7 +147,7 @@ func vCat(head, tail []byte, k int) byte {
 	return tail[k-len(head)]
 }
 
-//verif: mode=int
+// verif: mode=int
 func VH_C09_Peek() {
 	rb := vAnyRing("rb")
 	n := vNondetInt("n")
@@ -206,7 +170,7 @@ func VH_C09_Peek() {
 	vReach("C09.peek.end")
 }
 
-//verif: mode=int
+// verif: mode=int
 func VH_C09_Bytes() {
 	rb := vAnyRing("rb")
 	L0 := rb.Buffered()
@@ -221,7 +185,7 @@ func VH_C09_Bytes() {
 	vReach("C09.bytes.end")
 }
 
-//verif: mode=int
+// verif: mode=int
 func VH_C09_BytesEmpty() {
 	rb := vAnyRing("rb")
 	vAssume(rb.Buffered() == 0)
@@ -230,7 +194,7 @@ func VH_C09_BytesEmpty() {
 	vReach("C09.bytesempty.end")
 }
 
-//verif: mode=int
+// verif: mode=int
 func VH_C09_Discard() {
 	rb := vAnyRing("rb")
 	n := vNondetInt("n")
@@ -254,7 +218,7 @@ func VH_C09_Discard() {
 	vReach("C09.discard.end")
 }
 
-//verif: mode=int
+// verif: mode=int
 func VH_C09_DiscardAll() {
 	rb := vAnyRing("rb")
 	n := vNondetInt("n")
@@ -269,7 +233,7 @@ func VH_C09_DiscardAll() {
 	vReach("C09.discardall.end")
 }
 
-//verif: mode=int
+// verif: mode=int
 func VH_C09_Reset() {
 	rb := vAnyRing("rb")
 	c := rb.Cap()
@@ -279,7 +243,7 @@ func VH_C09_Reset() {
 	vReach("C09.reset.end")
 }
 
-//verif: mode=int
+// verif: mode=int
 func VH_C09_New() {
 	n := vNondetInt("n")
 	vAssume(0 <= n && n <= vMaxLen())
@@ -360,7 +324,7 @@ func (w *vWriter) Write(p []byte) (int, error) {
 	return m, nil
 }
 
-//verif: mode=int unwind=6
+// verif: mode=int unwind=6
 func VH_C09_ReadFrom() {
 	rb := vAnyRing("rb")
 	L0 := rb.Buffered()
@@ -385,7 +349,7 @@ func VH_C09_ReadFrom() {
 	vReach("C09.readfrom.end")
 }
 
-//verif: mode=int
+// verif: mode=int
 func VH_C09_WriteTo() {
 	rb := vAnyRing("rb")
 	L0 := rb.Buffered()
